@@ -251,8 +251,8 @@ pub fn property() -> Property {
         pre: Some(pre),
         post: None,
         parts: vec![
-            Box::new(Part { name: "fiin", driver: Driver::Gen(fiin_strategy, 16_000, 64_000), prop: prop_fiin, exhaustive: false }),
-            Box::new(Part { name: "patchlist", driver: Driver::Gen(list_strategy, 400_000, 1_600_000), prop: prop_list, exhaustive: false }),
+            Box::new(Part { name: "fiin", driver: Driver::Gen(fiin_strategy, 16_000, 128_000), prop: prop_fiin, exhaustive: false }),
+            Box::new(Part { name: "patchlist", driver: Driver::Gen(list_strategy, 400_000, 3_200_000), prop: prop_list, exhaustive: false }),
         ],
     }
 }
